@@ -86,6 +86,7 @@ func main() {
 	stream := flag.String("stream", "both", "main | precond | roothash | both (= all)")
 	nrt := flag.Int("roothash", 10, "histories of the roothash stream (runtime rounds, timeouts, suspension)")
 	rtBlocks := flag.Int("rtblocks", 30, "blocks per roothash history")
+	nvrf := flag.Int("schedvrf", 150, "cases of the scheduler-level VRF stream")
 	replay := flag.String("replay", "", "replay one case description (JSON)")
 	verbose := flag.Bool("v", false, "")
 	flag.Int64Var(&capMarginFlag, "capmargin", -1, "probe: force every non-bypass history to a total supply whose voting power is this far below CometBFT's cap, with small-stake joiners (default: knob)")
@@ -154,6 +155,14 @@ func main() {
 			hists = append(hists, histDesc{Stream: "roothash", HSeed: hs | 1, Blocks: 18, Mask: allFeatures, Script: scriptRtSuspendTimeout})
 			for i := 0; i < *nrt; i++ {
 				hists = append(hists, histDesc{Stream: "roothash", HSeed: rng.U64() % 1_000_000_000, Blocks: *rtBlocks, Mask: allFeatures})
+			}
+		}
+		if *stream == "schedvrf" || *stream == "both" {
+			// the scheduler application alone, VRF beacon backend (one epoch transition per case)
+			hists = append(hists, histDesc{Stream: "schedvrf", HSeed: 2, Blocks: 1, Mask: allFeatures, Script: "vrf-foreign-proofs"})
+			hists = append(hists, histDesc{Stream: "schedvrf", HSeed: 3, Blocks: 1, Mask: allFeatures, Script: "vrf-foreign-proofs"})
+			for i := 0; i < *nvrf; i++ {
+				hists = append(hists, histDesc{Stream: "schedvrf", HSeed: rng.U64() % 1_000_000_000, Blocks: 1, Mask: allFeatures})
 			}
 		}
 		if *stream == "precond" || *stream == "both" {
@@ -268,6 +277,9 @@ func sortedKeys(m map[string]int) []string {
 
 // shrink greedily: fewer blocks (the failing height bounds it), then fewer features.
 func shrink(h histDesc, v *violation) *violation {
+	if h.Stream == "schedvrf" {
+		return v // a single epoch transition: nothing to shrink
+	}
 	best, bv := h, v
 	if int(v.Height) < best.Blocks && v.Height > 0 {
 		c := best
